@@ -1,4 +1,5 @@
 import Dnp3.Gen.CrcTable
+import Dnp3.Model.CrcSerial
 /-!
 # CRC-16/DNP — model of `dnp3/src/link/crc.rs`
 
@@ -21,19 +22,5 @@ def calcCrc (bs : List Nat) : Nat := 0xFFFF ^^^ crcIncT 0 bs
 
 /-- `calc_crc_with_0564` -/
 def calcCrc0564 (bs : List Nat) : Nat := 0xFFFF ^^^ crcIncT Gen.crcOf0564 bs
-
-/-- one bit of the serial CRC: shift right, xor the reflected polynomial when a one falls out -/
-def bitStep (acc : Nat) : Nat :=
-  if acc % 2 = 1 then (acc / 2) ^^^ 0xA6BC else acc / 2
-
-def bitStep8 (acc : Nat) : Nat :=
-  bitStep (bitStep (bitStep (bitStep (bitStep (bitStep (bitStep (bitStep acc)))))))
-
-/-- bit-serial CRC-16/DNP step for one byte -/
-def crcStepS (acc b : Nat) : Nat := bitStep8 (acc ^^^ b)
-
-def crcIncS (acc : Nat) (bs : List Nat) : Nat := bs.foldl crcStepS acc
-
-def le16 (x : Nat) : List Nat := [x % 256, (x / 256) % 256]
 
 end Dnp3
